@@ -609,10 +609,14 @@ class RamStorage(Storage):
         return name in self.files
 
     def file_length(self, name):
-        if name not in self.files:
+        try:
+            # One look-up: another thread can delete the file between a
+            # separate test and the access
+            content = self.files[name]
+        except KeyError:
             # See open_file()
             raise IOError(errno.ENOENT, "No such file in RamStorage", name)
-        return len(self.files[name])
+        return len(content)
 
     def file_modified(self, name):
         return -1
@@ -639,11 +643,16 @@ class RamStorage(Storage):
         return f
 
     def open_file(self, name, **kwargs):
-        if name not in self.files:
+        try:
+            # One look-up: another thread (a writer cleaning up merged
+            # segments) can delete the file between a separate test and the
+            # access
+            content = self.files[name]
+        except KeyError:
             # Same error type as FileStorage, so callers that handle a file
             # that vanished under them (FileIndex.reader) also work here
             raise IOError(errno.ENOENT, "No such file in RamStorage", name)
-        buf = memoryview_(self.files[name])
+        buf = memoryview_(content)
         return BufferFile(buf, name=name, **kwargs)
 
     def lock(self, name):
